@@ -39,14 +39,15 @@ FILTERS = ["ramp", "shepp-logan", "cosine", "hamming", "hann", None]
 FIDX = {f: i for i, f in enumerate(FILTERS)}
 
 # --- tolerances (float32 port against the float64 reference), all relative to a case scale ----
-# measured on the repaired tree over the thorough stream: radon <= 1.1e-6 * n * max|img|,
-# filter <= 4e-7, iradon <= 1.5e-5 * max|sinogram|; the bounds below leave a factor >= 10 and are
-# 20-1000x below the smallest effect of any geometry / window / scaling discrepancy (>= 5e-3).
+# measured on the repaired tree over three thorough streams (7000 cases): radon <= 1.5e-6 * n * max|img|,
+# filter <= 3.1e-7, iradon <= 9.3e-6 * max|sinogram|, theta0 <= 4.3e-7, linearity <= 1.1e-7 / 4.4e-7,
+# batched vs single: 0 exactly; the bounds below leave a factor >= 13 and are far below the effect of any
+# geometry / window / scaling discrepancy (a 0.3% change of the hamming coefficients gives 5e-4 in iradon).
 RADON_RTOL = 2e-5        # * n * max|masked image|       (a column sums n bilinear samples)
 FILTER_ATOL = 5e-6       # filter values are in [0, 1]
-IRADON_RTOL = 3e-4       # * max|sinogram|
+IRADON_RTOL = 2e-4       # * max|sinogram|
 SAME_RTOL = 2e-6         # batched vs per-image (same float32 arithmetic, possibly re-associated)
-LIN_RTOL = 4e-5          # linearity, float32 on both sides
+LIN_RTOL = 1e-5          # linearity, float32 on both sides
 SPEC_RTOL = 1e-9         # exact model of scikit-image vs scikit-image (float64)
 EDGE_EPS = 1e-3          # |t - detector end| below which np.interp(left=0,right=0) is discontinuous
 
@@ -406,8 +407,17 @@ def oracle_iradon(case):
     case["_excluded"] = int((~ok).sum())
     if not err <= IRADON_RTOL * scale:
         r, c = np.unravel_index(int(np.nanargmax(d)), d.shape)
-        key = ("iradon-default-theta-vs-skimage" if theta is None else
-               "iradon-vs-skimage-%s" % ("circle" if circle else "nocircle"))
+        key = "iradon-vs-skimage-%s" % ("circle" if circle else "nocircle")
+        if theta is None:
+            # the default angle set is at fault only if the same call with scikit-image's default angles
+            # passed explicitly agrees
+            th = np.linspace(0.0, 180.0, s.shape[0], endpoint=False)
+            try:
+                d2 = np.where(ok, np.abs(run_iradon_port(s, th, filt, circle, out)[0] - run_iradon_sk(s, th, filt, circle, out)), 0.0)
+                if float(d2.max()) <= IRADON_RTOL * scale:
+                    key = "iradon-default-theta-vs-skimage"
+            except Exception:  # noqa
+                pass
         return (key,
                 "iradon_torch differs from skimage.transform.iradon(circle=%s, filter_name=%r%s): %d projections of %d "
                 "pixels (%s sinogram), angles %s %s; pixel (%d,%d) torch %.6g skimage %.6g (max error %.3g = %.3g x "
@@ -571,8 +581,9 @@ def check_oracle(ctx: Ctx):
                       nontrivial=size >= 3)
         if res is not None:
             key, what, detail = res
-            if key not in fails or size < fails[key][0]:
-                fails[key] = (size, what, case, detail)
+            rank = (size < 8, size)      # report the smallest failing size >= 8 (smaller ones only if there is none)
+            if key not in fails or rank < fails[key][0]:
+                fails[key] = (rank, what, case, detail)
         else:
             for m in ("_rel", "_err"):
                 if m in case:
